@@ -202,13 +202,19 @@ namespace occa {
       );
 
       /*Loop through the reservation list*/
+      /*
+      A block is a run of reservations whose aligned spans touch or overlap.
+      Blocks start on an alignment boundary (reservations which do not, e.g.
+      slices which outlived their parent, keep their position inside the
+      aligned unit), so that packing never needs more than 'reserved' bytes
+      */
       auto it = reservations.begin();
       modeMemory_t* m = *it;
-      dim_t lo = m->offset;    /*Start point of current block*/
-      dim_t hi = lo + m->size; /*End point of current block*/
+      dim_t lo = (m->offset / alignment) * alignment; /*Start point of current block*/
+      dim_t hi = m->offset + m->size;                 /*End point of current block*/
       dim_t offset = 0;
       udim_t newReserved = 0;
-      setPtr(m, newBuffer, offset);
+      setPtr(m, newBuffer, m->offset - (lo - offset));
       do {
 
         it++;
@@ -220,7 +226,7 @@ namespace occa {
         } else {
           /*Look at next reservation*/
           m = *it;
-          const dim_t mlo = m->offset;
+          const dim_t mlo = (m->offset / alignment) * alignment;
           const dim_t mhi = m->offset + m->size;
           if (mlo > hi) {
             /*
